@@ -98,6 +98,9 @@ M = [
   "        hamming_dist_max = (l_num_tokens + r_num_tokens - 2 * overlap_threshold) - 1\n"),
  ("m33-suffix-max-depth-3", P+"filter/suffix_filter.py",
   "        self.max_depth = 2\n", "        self.max_depth = 3\n"),
+ ("m34-setsim-progress-path-drops-row", P+"join/set_sim_join.py",
+  "        if show_progress:\n            prog_bar.update()\n\n    output_header",
+  "        if show_progress:\n            prog_bar.update()\n            if len(output_rows) > 2:\n                output_rows.pop()\n\n    output_header"),
 ]
 os.makedirs(OUT, exist_ok=True)
 for name, path, old, new in M:
